@@ -76,14 +76,27 @@ def dropPrefixCI? : (p s : Text) → Option Text
 def skipSpaces (s : Text) : Text := s.dropWhile (· == ' ')
 def skipWs (s : Text) : Text := s.dropWhile isWs
 
-/-! ### 1. `suppress_first_comments` : `\A(#.*\n)*` ↦ "" -/
+/-! ### 1. `suppress_first_comments` : `(?i)\A(#(?!\s*paroxython\s*:).*\n)*` ↦ "" -/
 
-/-- Drop the leading lines that start with `#` — a line counts only if it is terminated by a
-newline, i.e. is not the last element of the split. -/
+/-- The negative look-ahead after a `#`: `\s*paroxython\s*:` in any case. `\s` also matches a newline:
+the look-ahead reads the rest of the TEXT, not only the rest of the line. -/
+def hintAhead (afterHash : Text) : Bool :=
+  match dropPrefixCI? "paroxython".toList (skipWs afterHash) with
+  | some r =>
+    match skipWs r with
+    | ':' :: _ => true
+    | _ => false
+  | none => false
+
+/-- Drop the leading lines that start with `#` not followed by the hint marker — a line counts only
+if it is terminated by a newline, i.e. is not the last element of the split. -/
 def dropLeadingComments : List Line → List Line
   | [] => []
   | [l] => [l]
-  | l :: m :: rest => if l.head? = some '#' then dropLeadingComments (m :: rest) else l :: m :: rest
+  | l :: m :: rest =>
+    if l.head? = some '#' ∧ hintAhead (joinNl (l.tail :: m :: rest)) = false then
+      dropLeadingComments (m :: rest)
+    else l :: m :: rest
 
 def suppressFirstComments (t : Text) : Text := joinNl (dropLeadingComments (splitNl t))
 
@@ -197,7 +210,7 @@ def isHint (s : Text) : Bool := (normalizeComment s).2 != 0
 /-! ### 6. The token loop -/
 
 inductive Kind where
-  | comment | string | newline | nl | indent | dedent | other
+  | comment | string | newline | nl | indent | dedent | fstringMiddle | other
   deriving DecidableEq, Repr, Inhabited
 
 structure Token where
@@ -213,7 +226,7 @@ structure Token where
 inductive Piece where
   | dropped                 -- a comment without hint: `continue`
   | hint (s : Text)         -- a hint comment, normalised
-  | pass                    -- `"pass\n"` instead of a STRING at statement start
+  | pass                    -- `"pass\n"` instead of a docstring-like STRING statement
   | verbatim (s : Text)
   deriving DecidableEq, Repr, Inhabited
 
@@ -235,29 +248,57 @@ def Kind.opensStmt : Kind → Bool
   | .indent | .dedent | .newline => true
   | _ => false
 
-/-- One iteration of the `for token_info in generate_tokens(...)` loop. -/
-def step (st : LoopState) (t : Token) : LoopState × Emit :=
+def isBrace (c : Char) : Bool := c == '{' || c == '}'
+
+/-- `string.replace("{", "{{").replace("}", "}}")` -/
+def doubleBraces (s : Text) : Text := s.flatMap fun c => if isBrace c then [c, c] else [c]
+
+/-- `string.count("{") + string.count("}")` -/
+def braceCount (s : Text) : Nat := s.countP isBrace
+
+/-- `previous_token` after a token that is not skipped by `continue`: an NL or COMMENT token does not
+hide a statement start. -/
+def nextPrev (p k : Kind) : Kind :=
+  if (k = .nl ∨ k = .comment) ∧ p.opensStmt = true then p else k
+
+/-- One iteration of the `for (i, token_info) in enumerate(tokens)` loop; `next` is the kind of
+`tokens[i + 1]` when there is one (it is only looked at for a STRING at a statement start; its
+absence then raises IndexError, see `loopRaises`). -/
+def step (st : LoopState) (t : Token) (next : Option Kind) : LoopState × Emit :=
   let pecol := if t.srow > st.perow then 0 else st.pecol
   let pad := (t.scol - pecol).toNat
-  let next : LoopState :=
-    ⟨if st.prev = .newline ∧ t.kind = .nl then .newline else t.kind, t.erow, t.ecol⟩
+  let after (ecol : Int) : LoopState := ⟨nextPrev st.prev t.kind, t.erow, ecol⟩
   if t.kind = .comment then
     let r := normalizeComment t.str
     if r.2 = 0 then
       -- `continue`: the column reset persists, nothing else is updated
       (⟨st.prev, st.perow, pecol⟩, ⟨pad, .dropped⟩)
-    else (next, ⟨pad, .hint r.1⟩)
-  else if t.kind = .string ∧ st.prev.opensStmt = true then (next, ⟨pad, .pass⟩)
-  else (next, ⟨pad, .verbatim t.str⟩)
+    else (after t.ecol, ⟨pad, .hint r.1⟩)
+  else if t.kind = .string ∧ st.prev.opensStmt = true ∧ next = some .newline then
+    (after t.ecol, ⟨pad, .pass⟩)
+  else if t.kind = .fstringMiddle then
+    (after (t.ecol + braceCount t.str), ⟨pad, .verbatim (doubleBraces t.str)⟩)
+  else (after t.ecol, ⟨pad, .verbatim t.str⟩)
+
+def nextKind (ts : List Token) : Option Kind := ts.head?.map (·.kind)
 
 def loopFrom : LoopState → List Token → List Emit
   | _, [] => []
-  | st, t :: ts => (step st t).2 :: loopFrom (step st t).1 ts
+  | st, t :: ts => (step st t (nextKind ts)).2 :: loopFrom (step st t (nextKind ts)).1 ts
 
-/-- The state reached after a list of tokens. -/
-def stateAfter : LoopState → List Token → LoopState
-  | st, [] => st
-  | st, t :: ts => stateAfter (step st t).1 ts
+/-- The state reached after a list of tokens followed by `rest`. -/
+def stateAfter : LoopState → List Token → (rest : List Token) → LoopState
+  | st, [], _ => st
+  | st, t :: ts, rest => stateAfter (step st t (nextKind (ts ++ rest))).1 ts rest
+
+/-- `tokens[i + 1]` raises IndexError: the LAST token is a STRING at a statement start (never the
+case for CPython's tokenizer, which ends with ENDMARKER). -/
+def loopRaisesFrom : LoopState → List Token → Bool
+  | _, [] => false
+  | st, [t] => t.kind = .string && st.prev.opensStmt
+  | st, t :: t' :: ts => loopRaisesFrom (step st t (some t'.kind)).1 (t' :: ts)
+
+def loopRaises (ts : List Token) : Bool := loopRaisesFrom .init ts
 
 def loop (ts : List Token) : List Emit := loopFrom .init ts
 
@@ -289,33 +330,41 @@ def sblLines : List Line → List Line
 
 def suppressBlankLines (t : Text) : Text := joinNl (sblLines (splitNl t))
 
-/-! ### 8. `suppress_useless_pass_statements` : `(?m)^( *)pass\n\1(?!\s)` ↦ `\1` -/
+/-! ### 8. `suppress_useless_pass_statements` : `(?m)^( *)pass\n(?=(?: *#.*\n)*\1(?![\s#]))` ↦ "" -/
+
+/-- Number of leading spaces. -/
+def indentOf (l : Line) : Nat := (l.takeWhile (· == ' ')).length
 
 /-- `some k` when the line is exactly `k` spaces followed by `pass`. -/
 def passIndent? (l : Line) : Option Nat :=
-  let k := (l.takeWhile (· == ' ')).length
-  if l.drop k = "pass".toList then some k else none
+  if l.drop (indentOf l) = "pass".toList then some (indentOf l) else none
 
-/-- `\1(?!\s)` on the next line `m`: `k` spaces, then a non-whitespace character — or the end of
-the text (when `m` is the last line and stops there). -/
-def nextOk (k : Nat) (m : Line) (mIsLast : Bool) : Bool :=
-  m.take k == List.replicate k ' ' &&
-    match m.drop k with
+/-- ` *#.*` : spaces then `#`. -/
+def isCommentLine (l : Line) : Bool := (l.drop (indentOf l)).head? == some '#'
+
+/-- `\1(?![\s#])` on line `m`: exactly `k` spaces, then a character that is neither whitespace nor
+`#` — or the end of the text (when `m` is the last line and stops there). -/
+def siblingAt (k : Nat) (m : Line) (mIsLast : Bool) : Bool :=
+  indentOf m == k &&
+    match m.drop (indentOf m) with
     | [] => mIsLast
-    | c :: _ => !isWs c
+    | c :: _ => !isWs c && c != '#'
 
-/-- A match removes the `pass` line. The scan resumes after the `k` spaces it consumed on the next
-line: at a line start when `k = 0`, otherwise *inside* that line, which therefore cannot itself be
-the `pass` line of a further match. -/
+/-- The look-ahead on the lines that follow a `pass` line: skip the (newline-terminated) comment
+lines, then require a sibling. -/
+def passTarget (k : Nat) : List Line → Bool
+  | [] => false
+  | [m] => siblingAt k m true
+  | m :: m' :: rest => if isCommentLine m then passTarget k (m' :: rest) else siblingAt k m false
+
+/-- A match removes the `pass` line and nothing else; the scan resumes at the next line start. -/
 def supPassLines : List Line → List Line
   | [] => []
   | [l] => [l]
   | l :: m :: rest =>
     match passIndent? l with
     | some k =>
-      if nextOk k m rest.isEmpty then
-        (if k = 0 then supPassLines (m :: rest) else m :: supPassLines rest)
-      else l :: supPassLines (m :: rest)
+      if passTarget k (m :: rest) then supPassLines (m :: rest) else l :: supPassLines (m :: rest)
     | none => l :: supPassLines (m :: rest)
 
 def suppressUselessPass (t : Text) : Text := joinNl (supPassLines (splitNl t))
@@ -327,9 +376,17 @@ def finish (joined : Text) : Text := suppressUselessPass (suppressBlankLines (st
 
 def postprocess (ts : List Token) : Text := finish (loopText ts)
 
-/-- `Cleanup.full_cleaning`, the tokenizer being a parameter that may raise. -/
-def fullCleaning {ε : Type} (tokenize : Text → Except ε (List Token)) (src : Text) : Except ε Text := do
-  let ts ← tokenize (preprocess src)
-  pure (postprocess ts)
+inductive CleanErr (ε : Type) where
+  | tokenizer (e : ε)
+  | indexError
+  deriving Repr
+
+/-- `Cleanup.full_cleaning`, the tokenizer being a parameter that may raise (all tokens are produced
+before the loop starts). -/
+def fullCleaning {ε : Type} (tokenize : Text → Except ε (List Token)) (src : Text) :
+    Except (CleanErr ε) Text :=
+  match tokenize (preprocess src) with
+  | .error e => .error (.tokenizer e)
+  | .ok ts => if loopRaises ts then .error .indexError else .ok (postprocess ts)
 
 end Paroxy.Cleanup
